@@ -242,8 +242,87 @@ pub fn generate(d: &mut Draw) -> Case {
         }
         let foreign = if cross { Some(g.other_dom(dom)) } else { None };
         let w = *g.d.pick(&[4usize, 1, 2]);
-        let kind = g.d.weighted(&[5, 3, 1, 4, 3]);
+        // ---- a select whose data branches carry no domain -------------------
+        let dataless = g.d.chance(1, 7);
+        let kind = if dataless { 9 } else { g.d.weighted(&[5, 3, 1, 4, 3]) };
         let item = match kind {
+            9 => {
+                // the selector alone moves information: crossing iff it is foreign
+                let crossing_sel = g.d.bool();
+                let sd = if crossing_sel { g.other_dom(dom) } else { dom };
+                let mixed = g.d.chance(1, 4);
+                let data = |g: &mut G, k: usize| -> Ex {
+                    if mixed && k == 0 {
+                        g.operand(w, dom)
+                    } else if g.d.chance(1, 3) {
+                        Ex::P(w)
+                    } else {
+                        Ex::K(w, g.d.below(16) as u64)
+                    }
+                };
+                let (a, b, c3) = (data(&mut g, 0), data(&mut g, 1), data(&mut g, 2));
+                let c1 = Ex::S(g.cond_sig(sd), None);
+                let n2 = Ex::S(g.idx_sig(sd), None);
+                let form = g.d.below_usize(8);
+                g.classes.insert("dataless-select".into());
+                g.classes.insert(
+                    format!(
+                        "dataless-select:{}:{}",
+                        ["if-expr", "case-expr", "switch-expr", "if-stmt", "case-stmt", "default+if-stmt", "ff-if", "inst-input"][form],
+                        if crossing_sel { "foreign-selector" } else { "same-domain-selector" }
+                    ),
+                );
+                match form {
+                    0 => IK::Assign {
+                        lhs: Lhs::One(g.target(w, dom, true), LSel::All),
+                        rhs: Ex::Tern(Box::new(c1), Box::new(a), Box::new(b)),
+                    },
+                    1 => IK::Assign {
+                        lhs: Lhs::One(g.target(w, dom, true), LSel::All),
+                        rhs: Ex::CaseX(Box::new(n2), Box::new(a), Box::new(b), Box::new(c3)),
+                    },
+                    2 => IK::Assign {
+                        lhs: Lhs::One(g.target(w, dom, true), LSel::All),
+                        rhs: Ex::SwitchX(Box::new(c1), Box::new(a), Box::new(b)),
+                    },
+                    3 => IK::CombIf {
+                        lhs: Lhs::One(g.target(w, dom, true), LSel::All),
+                        c: c1,
+                        a,
+                        b,
+                    },
+                    4 => IK::CombCase {
+                        lhs: Lhs::One(g.target(w, dom, false), LSel::All),
+                        sel: n2,
+                        a,
+                        b,
+                    },
+                    5 => IK::Comb {
+                        lhs: Lhs::One(g.target(w, dom, true), LSel::All),
+                        dflt: a,
+                        cond: Some((c1, b)),
+                    },
+                    6 => IK::Ff {
+                        clk: dom,
+                        rst: None,
+                        lhs: Lhs::One(g.target(w, dom, true), LSel::All),
+                        cond: Some(c1),
+                        rhs: b,
+                    },
+                    _ => {
+                        g.dsg.children.push(Child {
+                            groups: vec![(None, vec![w], vec![w])],
+                        });
+                        g.classes.insert("flow:instance".into());
+                        let t = g.target(w, dom, false);
+                        IK::Inst {
+                            child: g.dsg.children.len() - 1,
+                            ins: vec![Ex::Tern(Box::new(c1), Box::new(a), Box::new(b))],
+                            outs: vec![Lhs::One(t, LSel::All)],
+                        }
+                    }
+                }
+            }
             0 => {
                 // assign; crossing position: rhs, dynamic lhs index, concatenated lhs
                 let pos = if cross { g.d.weighted(&[5, 2, 2]) } else { g.d.weighted(&[8, 1, 1]) };
@@ -452,8 +531,62 @@ pub fn generate(d: &mut Draw) -> Case {
         }
         g.dsg.items.push(it);
     }
+    // ---- a synchroniser: first flop inside unsafe (cdc), used outside -----------
+    let mut forced_unsafe: Vec<usize> = vec![];
+    if g.d.chance(1, 4) {
+        let db = *g.d.pick(&named);
+        let da = g.other_dom(db);
+        let w = *g.d.pick(&[1usize, 4, 2]);
+        g.n_var += 1;
+        let s0 = g.add_sig(format!("sync{}_0", g.n_var), w, db, Class::Var);
+        let src = g.operand(w, da);
+        forced_unsafe.push(g.dsg.items.len());
+        g.dsg.items.push(Item {
+            kind: IK::Ff {
+                clk: db,
+                rst: None,
+                lhs: Lhs::One(s0, LSel::All),
+                cond: None,
+                rhs: src,
+            },
+            unsafe_cdc: true,
+        });
+        g.classes.insert("sync-register".into());
+        // second flop in the same domain: must be clean
+        if g.d.chance(3, 4) {
+            let s1 = g.add_sig(format!("sync{}_1", g.n_var), w, db, Class::Var);
+            g.dsg.items.push(Item {
+                kind: IK::Ff {
+                    clk: db,
+                    rst: None,
+                    lhs: Lhs::One(s1, LSel::All),
+                    cond: None,
+                    rhs: Ex::S(s0, None),
+                },
+                unsafe_cdc: false,
+            });
+            g.avail.push((s1, db));
+            g.classes.insert("sync-register:second-flop-same-domain".into());
+        }
+        // read back into another named domain: must be a crossing
+        if g.d.chance(1, 2) {
+            let dt = g.other_named(db);
+            let t = g.target(w, dt, false);
+            g.dsg.items.push(Item {
+                kind: IK::Assign {
+                    lhs: Lhs::One(t, LSel::All),
+                    rhs: Ex::S(s0, None),
+                },
+                unsafe_cdc: false,
+            });
+            g.classes.insert("sync-register:read-back-into-other-domain".into());
+        }
+    }
     // ---- unsafe (cdc) placement ---------------------------------------------
     for i in 0..g.dsg.items.len() {
+        if forced_unsafe.contains(&i) {
+            continue;
+        }
         let crossing = g.dsg.item_crossing(&g.dsg.items[i]);
         let wrap = if crossing { g.d.chance(2, 5) } else { g.d.chance(1, 8) };
         g.dsg.items[i].unsafe_cdc = wrap;
@@ -466,7 +599,14 @@ pub fn generate(d: &mut Draw) -> Case {
     let mut blocked_ifs: BTreeSet<usize> = BTreeSet::new();
     let mut member_ok: BTreeSet<SigId> = BTreeSet::new();
     for it in &g.dsg.items {
-        let ok = !g.dsg.item_crossing(it) && g.dsg.item_rhs_has_signal(it) && !matches!(it.kind, IK::Inst { .. });
+        // an always_ff destination takes its domain from the clock, whatever
+        // the data is (this is what makes an un-annotated synchroniser work)
+        let ff_by_clock = match &it.kind {
+            IK::Ff { clk, lhs: Lhs::One(t, _), .. } => g.dsg.sigs[*t].dom == *clk,
+            _ => false,
+        };
+        let ok = ff_by_clock
+            || (!g.dsg.item_crossing(it) && g.dsg.item_rhs_has_signal(it) && !matches!(it.kind, IK::Inst { .. }));
         for t in g.dsg.item_targets(it) {
             match g.dsg.sigs[t].class {
                 Class::Var | Class::Out => {
